@@ -8,13 +8,14 @@ class SV:
     t: z3 term of the unboxed sort (Bool/Int/String/Real/Int-id), list[SV] for tup, V-term for any
     cls: class name for refs when statically known; py: concrete Python object for k == 'py'."""
 
-    __slots__ = ("k", "t", "cls", "py", "ety")
+    __slots__ = ("k", "t", "cls", "py", "ety", "eguard")
 
     def __init__(self, k, t=None, cls=None, py=None):
         self.k = k
         self.t = t
         self.cls = cls
         self.py = py
+        self.eguard = None  # z3 Bool under which the element type holds (class of the owning object)
         self.ety = None  # element type (types.Ty) of a list reference, instantiated on element access
 
     def __repr__(self):
